@@ -669,7 +669,7 @@ class Survey:
 
             # If one value it is stored as attribute.
             if value.size == 1:
-                value = float(value)
+                value = float(value.item())
 
             # If more than one value it is stored as data array;
             # broadcasting it if necessary.
